@@ -360,14 +360,19 @@ def template_program2(k, r):
            "  type nat_arr_t is array (natural range <>) of natural;",
            "  type sub_arr_t is array (0 to 3) of small_t;",
            "  type n8_arr_t is array (0 to 2) of nat8_t;",
-           "  type sl_arr_t is array (0 to 3) of std_logic;"] + decls
+           "  type sl_arr_t is array (0 to 3) of std_logic;",
+           "  type word_arr_t is array (0 to 1) of word_t;",
+           # an explicit overload with the profile of the implicit two-array MAXIMUM: it hides the implicit one
+           "  function maximum (l, r : n8_arr_t) return n8_arr_t;"] + decls
     if alias_in_pkg:
         pkg.append("  alias w_alias_t is word_t;")
     pkg += ["  constant na1 : nat_arr_t(0 to 2) := (1, 2, 3);", "  constant na2 : nat_arr_t(0 to 2) := (others => 2);",
             "  constant sa1 : sub_arr_t := (others => %s);" % lits[0], "  constant sa2 : sub_arr_t := (others => %s);" % lits[1],
             "  constant n81 : n8_arr_t := (1, 2, 3);", "  constant n82 : n8_arr_t := (3, 2, 1);",
             "  constant sl1 : sl_arr_t := (others => '0');", "  constant sl2 : sl_arr_t := ('1', '0', 'Z', 'X');",
+            "  constant wa1 : word_arr_t := (%s, %s);" % (lits[0], lits[1]), "  constant wa2 : word_arr_t := (others => %s);" % lits[2],
             "end package;"]
+    bodies.append("  function maximum (l, r : n8_arr_t) return n8_arr_t is\n  begin\n    if l < r then return r; else return l; end if;\n  end function;")
     body = ["package body %s is" % pk] + bodies + ["end package body;"]
     cmp_ops = ["<", "<=", ">", ">="]
     u = ["library ieee;", "use ieee.std_logic_1164.all;", "library %s;" % lib, "use %s.%s.all;" % (lib, pk),
@@ -377,6 +382,12 @@ def template_program2(k, r):
     # MINIMUM / MAXIMUM of an array of scalars (the element-wise unary form)
     u += ["  constant mn : natural := minimum(na1);", "  constant mx : nat8_t := maximum(n81);",
           "  constant ms : std_logic := maximum(sl2);", "  constant mq : word_t := minimum(sa2);",
+          # ... and the two-array forms of every one-dimensional array type with discrete elements (F62, fixed 76726cb)
+          "  constant m2n : nat_arr_t(0 to 2) := minimum(na1, na2);", "  constant m2x : n8_arr_t := maximum(n81, n82);",
+          "  constant m2s : sl_arr_t := maximum(sl1, sl2);", "  constant m2q : sub_arr_t := minimum(sa1, sa2);",
+          "  constant m2b : bit_vector(0 to 3) := maximum(bit_vector'(\"0101\"), \"0011\");",
+          "  constant m2t : string(1 to 3) := minimum(string'(\"abc\"), \"abd\");",
+          "  constant m2w : word_arr_t := %s(wa1, wa2);" % r.choice(["minimum", "maximum"]),
           "  constant v1 : word_t := %s;" % lits[2], "  constant v2 : word_t := %s;" % lits[3],
           "  constant c1 : boolean := v1 %s v2;" % r.choice(["<", "=", "<="])]
     if "maximum" in ops:
@@ -397,10 +408,10 @@ def template_program2(k, r):
                  ("u_user.vhd", "\n".join(u) + "\n"), ("u_other.vhd", "\n".join(other) + "\n")]
 
 
-def template_bundle(seed_, n, path):
+def template_bundle(seed_, n, path, mode="w", first=0):
     r = random.Random(seed_ * 31 + 5)
-    with open(path, "w") as f:
-        for k in range(n):
+    with open(path, mode) as f:
+        for k in range(first, first + n):
             lib, files = template_program(k, r) if k % 2 == 0 else template_program2(k, r)
             f.write("P t%d\n" % k)
             for name, text in files:
@@ -416,6 +427,16 @@ def check_templates(res, hbin, d, tier):
     n = 40 if tier == "quick" else 600
     path = os.path.join(d, "templates.bundle")
     template_bundle(seed(), n, path)
+    # corpus/C05.templates: fixed (seed, count) pairs that are always run (regressions: F62 two-array MINIMUM/MAXIMUM)
+    cpath = os.path.join(VERIF, "corpus", "C05.templates")
+    first = n
+    if os.path.exists(cpath):
+        for l in open(cpath):
+            f = l.split()
+            if len(f) == 2 and f[0].isdigit():
+                template_bundle(int(f[0]), int(f[1]), path, mode="a", first=first)
+                first += int(f[1])
+    n = first
     hr, log = run_harness(hbin, path, os.path.join(d, "templates.out"), os.path.join(d, "wd_t"), threads=8, batch=20)
     if hr is None:
         res.violation("harness c05 run crashed on the template stream", {"kind": "harness", "log": log[-2000:]}, no_failing_input=True)
